@@ -44,13 +44,13 @@ def driver(chk, n):
 
 def run(chk):
     quick = chk.tier == "quick"
-    chk.build(["std", "tiny13"] + ([] if quick else ["tiny7", "tiny199", "verify", "i64", "i128s", "noasm"]))
+    chk.build(["std", "i64", "tiny13"] + ([] if quick else ["tiny7", "tiny199", "verify", "i64", "i128s", "noasm"]))
     for o in ([13] if quick else [7, 13, 199]):
         recs = chk.generate(MODULE, "C02_tiny%d.cfg" % o, "tiny%d" % o, timeout=3000)
         chk.replay(recs, "tiny%d" % o, "exhaustive order-%d group" % o)
     chk.exhaustive = True
     recs = chk.generate(MODULE, "C02_gen.cfg", "gen", timeout=3000)
-    for v in (["std"] if quick else ["std", "verify", "i64", "i128s", "noasm"]):
+    for v in (["std", "i64"] if quick else ["std", "verify", "i64", "i128s", "noasm"]):
         chk.replay(recs, v, "generated boundary records")
     chk.validate(driver(chk, 150 if quick else 1500), MODULE, "C02_trace.cfg", "driver")
     return chk.finish(LEVEL,
